@@ -368,7 +368,6 @@ pub fn replay(check: &dyn Check, path: &str) -> i32 {
 }
 
 struct Slot {
-    scenario: J,
     out: Result<RunOut, String>,
 }
 
@@ -469,11 +468,24 @@ pub fn run_check(check: &dyn Check, opts: &Options) -> i32 {
                         Err(format!("harness panicked while executing a scenario: {}", msg))
                     }
                 };
-                results.lock().unwrap().insert(i, Slot { scenario, out });
+                // keep memory flat over millions of runs: scenarios are regenerated from the seed
+                // when needed, history samples are kept for the first runs only
+                let mut out = out;
+                if i >= 64 {
+                    if let Ok(o) = out.as_mut() {
+                        o.sample = None;
+                    }
+                }
+                drop(scenario);
+                results.lock().unwrap().insert(i, Slot { out });
             });
         }
     });
     let results = results.into_inner().unwrap();
+    let scenario_of = |i: u64| -> J {
+        let mut rng = Rng::new(derive_seed(opts.seed, id, i));
+        check.generate(&mut rng, opts.tier, i)
+    };
     // completed prefix: indices are claimed in order, every claimed index finishes
     let completed = results.len() as u64;
 
@@ -508,7 +520,7 @@ pub fn run_check(check: &dyn Check, opts: &Options) -> i32 {
                     samples.push(
                         J::obj()
                             .set("run", J::uint(*i))
-                            .set("scenario", slot.scenario.clone())
+                            .set("scenario", scenario_of(*i))
                             .set("history_head", out.sample.clone().unwrap_or(J::Null)),
                     );
                 }
@@ -528,8 +540,8 @@ pub fn run_check(check: &dyn Check, opts: &Options) -> i32 {
         }
     }
     if samples.is_empty() {
-        if let Some((i, slot)) = results.iter().next() {
-            samples.push(J::obj().set("run", J::uint(*i)).set("scenario", slot.scenario.clone()));
+        if let Some((i, _slot)) = results.iter().next() {
+            samples.push(J::obj().set("run", J::uint(*i)).set("scenario", scenario_of(*i)));
         }
     }
 
@@ -554,7 +566,7 @@ pub fn run_check(check: &dyn Check, opts: &Options) -> i32 {
     let replay_dir = format!("{}/replay", opts.verif_dir);
     let _ = std::fs::create_dir_all(&replay_dir);
     for (class, (run, v)) in unlisted.iter().take(4) {
-        let mut scenario = results[run].scenario.clone();
+        let mut scenario = scenario_of(*run);
         let mut viol = v.clone();
         let mut hash = results[run].out.as_ref().map(|o| o.hash).unwrap_or(0);
         let mut nondet = false;
